@@ -280,6 +280,20 @@ def run(ctx: Ctx) -> None:
         # tie of the modelled block sub-parser (mini_verbatim is a theorem about exactly this model)
         from . import miniblock
         miniblock.tie_all(ctx, drv, quick)
+        # verbatim blocks behind a container prefix: the content is the content of the bare block (only the prefix is removed)
+        from markdown_it import MarkdownIt
+        mdq = MarkdownIt("commonmark")
+        VERB = ("code_block", "fence", "html_block")
+        blocks = miniblock.HTML_BLOCKS + [["```", "a", "  b", "", "c", "```"], ["~~~ x", "a", "~~~"], ["    code", "", "      more"], ["<div>", "a", "b"]]
+        for blk in blocks:
+            bare = [t.content for t in mdq.parse("\n".join(blk) + "\n") if t.type in VERB]
+            for first, rest in (("> ", "> "), ("> > ", "> > "), ("- ", "  "), ("- > ", "  > "), ("1. ", "   ")):   # (a bare ">" swallows one following blank)
+                doc = "\n".join([first + blk[0]] + [rest + x for x in blk[1:]]) + "\n"
+                got = [t.content for t in mdq.parse(doc) if t.type in VERB]
+                ctx.count((doc, "wrapped-verbatim"), nontrivial=True)
+                if bare and got != bare:
+                    ctx.fail("verbatim:container-prefix", "a verbatim block behind a container prefix does not hold the content of the bare block",
+                             {"input": doc, "cfg": gens.FIXED_CFGS[0], "bare": bare, "wrapped": got})
     finally:
         drv.close()
     ctx.partial += [
@@ -313,6 +327,9 @@ def search(ctx: Ctx):
 
 
 def replay(ctx: Ctx, obj: dict) -> bool:
+    if "bare" in obj:
+        from markdown_it import MarkdownIt
+        return [t.content for t in MarkdownIt("commonmark").parse(obj["input"]) if t.type in ("code_block", "fence", "html_block")] == obj["bare"]
     if "input" in obj and "cfg" in obj:
         return check(gens.make_md(obj["cfg"]), obj["input"]) is None
     return True
